@@ -208,28 +208,21 @@ impl Expression {
         Self::Variable(name.into(), ExpressionType::UserDefined(type_name.into()))
     }
 
-    fn flip_multiply_plus(l_op: &Operator, r_op: &Operator) -> bool {
-        (l_op.is_multiply_or_divide() || *l_op == Operator::Modulo) && r_op.is_plus_or_minus()
-    }
-
-    fn flip_plus_minus(l_op: &Operator, r_op: &Operator) -> bool {
-        //
-        //  A + B - C is parsed as
-        //
-        //      +
-        //   A     -
-        //        B C
-        //
-        // needs to flip into
-        //
-        //      -
-        //   +    C
-        //  A B
-        l_op.is_plus_or_minus() && r_op.is_plus_or_minus()
-    }
-
-    fn flip_multiply_divide(l_op: &Operator, r_op: &Operator) -> bool {
-        l_op.is_multiply_or_divide() && r_op.is_multiply_or_divide()
+    /// Binding strength of a binary operator: `* /` > `MOD` > `+ -` > relational > `AND` > `OR`.
+    fn binary_priority(op: &Operator) -> u8 {
+        if op.is_multiply_or_divide() {
+            5
+        } else if *op == Operator::Modulo {
+            4
+        } else if op.is_plus_or_minus() {
+            3
+        } else if op.is_relational() {
+            2
+        } else if *op == Operator::And {
+            1
+        } else {
+            0
+        }
     }
 }
 
@@ -376,13 +369,10 @@ impl ExpressionTrait for Expression {
     fn should_flip_binary(&self) -> bool {
         match self {
             Self::BinaryExpression(l_op, _, l_right, _) => match &l_right.element {
+                // `A op1 (B op2 C)` regroups as `(A op1 B) op2 C` when op1 binds at least
+                // as tightly as op2 (operators of equal strength group left to right)
                 Self::BinaryExpression(r_op, _, _, _) => {
-                    l_op.is_arithmetic() && (r_op.is_relational() || r_op.is_binary())
-                        || l_op.is_relational() && r_op.is_binary()
-                        || *l_op == Operator::And && *r_op == Operator::Or
-                        || Self::flip_multiply_plus(l_op, r_op)
-                        || Self::flip_plus_minus(l_op, r_op)
-                        || Self::flip_multiply_divide(l_op, r_op)
+                    Self::binary_priority(l_op) >= Self::binary_priority(r_op)
                 }
                 _ => false,
             },
